@@ -1349,19 +1349,25 @@ MANIFEST_ENTRY = {
              'positions over N x N, no shape involved; the reflect boundary and shapes are covered by the correspondence only): '
              'the four slices partition the samples, recomposite(decomposite)=id and back for both layouts, composite / wb_prescale '
              '/ wb_postscale act on the native site / channel of each colour, Malvar copies the raw sample at the native site, '
-             'kernels 5x5, symmetric, unit sum, uniform mosaic -> uniform image; safe white balance WITH UNIT GAINS leaves no '
+             'kernels 5x5, symmetric, unit sum, uniform mosaic -> uniform image; the mosaic of ONE COLOUR (r, g, b) demosaicks to '
+             '(r, g, b) in every channel at every sample >= 2 from the border, every size, both layouts (pins which filtered image '
+             'c1/c2/c3 serves which site; border: correspondence only); demosaic_deinterlace returns the red and blue planes '
+             'sample for sample and the mean of the two greens; safe white balance WITH UNIT GAINS leaves no '
              'inspected plane above its saturation level. TRANSLATED each run: ADC ceiling, container-width chain, the clip / gain / '
              'clip chain of expose statement by statement (nothing but shape handling / lut / return may follow the cast), '
              'bindown/tile shape formulas, reduction axes, scale factors, Bayer slices and plane/site/gain tables (pre and post), '
-             'Malvar source table, kernels, divisor, the safe-limiting loop step. RECOGNISER FACTS only (no Lean content): output '
+             'Malvar source table, kernels, divisor, the green average of demosaic_deinterlace (as a term), the safe-limiting loop step. RECOGNISER FACTS only (no Lean content): output '
              'shape (frames, *image.shape), interleaved views, mode tables, planes inspected / per-plane saturation / gains divided. '
              'MODELLED AND COMPARED (driver runs the HAND model): exposure on doubles (DN exact, bits 1..32, maps, frames, 1-D..4-D '
              'images), container rejection for bits > 32, N-D binning/tiling on floats and on uint8/16/32, int8/16/32, bool arrays '
              'at the container ends, frames from expose sum-binned, all mode spellings, full Malvar demosaick on rationals, Bayer '
              'functions on uint8/uint16/int32/float32/float64 (fractions, > 2^24) with dtype preservation, output= buffers, '
              'upper-case layouts, distinct gains and per-plane saturation lists; one pass per bit depth with the REAL seeded RNG '
-             '(range, dtype, shape, 8-sigma band) and a recording of what is asked of the RNG (rate, sigma, sizes).'),
+             '(range, dtype, shape, 8-sigma band) and a recording of what is asked of the RNG (rate, sigma, sizes); '
+             'demosaic_deinterlace, wb_postscale and the descaling ratio of safe white balance (pre and post, scalar and per-plane '
+             'saturation) against the model on rationals; Malvar on one-colour mosaics (5x5..16x16, odd shapes); Detector(lut=...) '
+             'for bits <= 14 (identity, permutation and float tables, 1 and 3 frames): exposure = lut[DN without lut].'),
     'note': ('Trusted: the unsigned cast of an in-range double is floor; NumPy reshape/broadcast/ndimage.convolve semantics '
-             '(compared); 64-bit accumulation of integer sums. Not covered: the distribution of the random draws, lut, '
+             '(compared); 64-bit accumulation of integer sums. Not covered: the distribution of the random draws, '
              'assemble_superresolved, safe white balance with non-unit gains (nothing is promised by the code).'),
 }
